@@ -213,6 +213,7 @@ def run(tier, seed):
         failing += malformed_stream(ck, tmp, 10 if not ck.deep else 60)
         failing += nesting_stream(ck)
         failing += scaling_stream(ck)
+        failing += scan_stream(ck)
         failing += sharing_stream(ck)
         failing += command_stream(ck, tmp)
         ck.cov["rule"] = ("for each of N generated envelopes: every node (descending through bstr-wrapped layers) replaced by 26 "
@@ -476,6 +477,10 @@ WIDE = {
     "dependencies": lambda n: _envelope(man={1: 1, 2: 1, 3: cbor2.dumps({1: {i: {} for i in range(n)}, 2: [[b"M", i] for i in range(n)]})}),
     "text languages": lambda n: _envelope(man={1: 1, 2: 1, 3: cbor2.dumps({2: [[b"M"]]}), 23: cbor2.dumps({"l%d" % i: {1: "x"} for i in range(n)})}),
     "parameter overrides": lambda n: _envelope(man={1: 1, 2: 1, 3: cbor2.dumps({2: [[b"M"]]}), 7: cbor2.dumps([20, {14: 1}] * n)}),
+    # heads written with 1-, 2- and 4-byte arguments outside string content, very many of them (the scan that runs before the decoder
+    # reads every one): 25 times the members of the other collections
+    "integers with long heads": lambda n: cbor2.dumps(cbor2.CBORTag(107, [255, 65535, 70000] * (8 * n))),
+    "parameter values with long heads": lambda n: _envelope(man={1: 1, 2: 1, 3: cbor2.dumps({2: [[b"M"]]}), 7: cbor2.dumps([20, {14: 300}] * (4 * n))}),
     "try-each alternatives": lambda n: _envelope(man={1: 1, 2: 1, 3: cbor2.dumps({2: [[b"M"]]}), 7: cbor2.dumps([15, [cbor2.dumps([12, 0])] * n])}),
 }
 
@@ -511,6 +516,68 @@ def scaling_stream(ck):
     return fails
 
 
+def impl_scan(data):
+    """SuitObject.reject_sharing_tags: True when the data would be handed to the decoder, False on its ValueError"""
+    from suit_generator.suit.types.common import SuitObject
+    try:
+        SuitObject.reject_sharing_tags(data)
+        return True
+    except ValueError:
+        return False
+
+
+def scan_stream(ck):
+    """The scan of item heads that refuses the sharing tags before decoding (fix 76ae410) against its model Cbor/TagScan.v, byte
+    for byte: bombs in every tag-head width, tag heads spliced into envelopes at every kind of position (in front of an item, inside
+    string content, behind the first item, cut short), indefinite-length strings / arrays / maps, reserved and truncated heads,
+    token soups.  An exception other than ValueError is a violation; a different verdict breaks the correspondence."""
+    rng = ck.rng
+    fails = []
+    heads = [bytes([0xD8, 25]), bytes([0xD8, 28]), bytes([0xD8, 29]), bytes([0xD9, 0x01, 0x00]), bytes([0xD9, 0, 28]), bytes([0xDA, 0, 0, 0, 29]),
+             bytes([0xDB] + [0] * 7 + [25]), bytes([0xDA, 0, 0, 1, 0]), bytes([0xD8, 24]), bytes([0xD8, 30]), bytes([0xD9, 0x01, 0x01]), bytes([0xC6]), bytes([0xD8, 107])]
+    inputs = [share_bomb(d, tag_width=w) for d in (1, 3) for w in (1, 2, 4, 8)] + [stringref_bomb(60), stringref_bomb_wide(90)]
+    inputs += [b"", b"\xd8", b"\xd9\x1c", b"\xd9\x00", b"\xda\x00\x00\x00", b"\xdb\x00\x00\x00\x00\x00\x00\x00", b"\xff", b"\x9f\xd8\x1c\x00\xff",
+               b"\x5f\x42\xd8\x1c\xff\xd8\x1c\x00", b"\x7f\x62\xd8\x1c\xff", b"\x7f\x62\xd8\x1c\xff\xd8\x1d\x00", b"\xbf\xd8\x1d\x00\x00\xff",
+               b"\xbf\x00\xd8\x1d\x00\xff", b"\x82\x00", b"\x81\x00\xd8\x1c\x00", b"\x00\xd8\x1c\x00", b"\x44\xd8\x1c\xd8\x1d", b"\x44\xd8\x1c\xd8\x1d\xd8\x1c",
+               b"\x5b" + b"\xff" * 8 + b"\xd8\x1c", b"\x9b" + b"\xff" * 8 + b"\xd8\x1c\x00", b"\xbb" + b"\xff" * 8 + b"\x00\xd8\x1d\x00", b"\xc0\xd8\x1c\x00",
+               b"\xf8\x1c", b"\xf9\xd8\x1c", b"\xfa\xd8\x1c\xd8\x1c", b"\xfb" + b"\xd8\x1c" * 4, b"\xfb" + b"\xd8\x1c" * 4 + b"\xd8\x1c", b"\x1c", b"\xdc\x00", b"\xdf\xd8\x1c",
+               b"\x1f", b"\x3f", b"\xdf", b"\xfc", b"\x80\xd8\x1c\x00", b"\xa0\xd8\x1c\x00", b"\x81\x80\xd8\x1c", b"\x82\x80\xd8\x1c\x00", b"\x82\xa0\xd8\x1d\x00",
+               b"\x9f\xff\xd8\x1c\x00", b"\x82\x9f\xff\xd8\x1c\x00", b"\x82\x5f\xff\xd8\x1c\x00", b"\xa1\x5f\xff\xd8\x19\x00", b"\x9f\x9f\xff\xd8\x1c\x00\xff",
+               b"\xd8\x6b\xa1\xff\x00", b"\x81\xff", b"\xbf\xff\xd8\x1c\x00", b"\xc1\xc2\xc3\xd8\x1c\x00", b"\x18", b"\x38", b"\x58\x02\xd8", b"\x78\x01", b"\x98\x01\xd8\x1c\x00"]
+    envs = [_envelope(), _envelope({"#a": b"\xd8\x1c\x00", "#b": b""}), nested_run_sequences(4), nested_try_each(3), nested_dependencies(3),
+            cbor2.dumps(cbor2.CBORTag(107, {2: cbor2.dumps([cbor2.dumps([-16, bytes(32)]), cbor2.dumps(cbor2.CBORTag(18, [b"\xa1\x01\x26", {}, None, bytes(64)]))]),
+                                              3: cbor2.dumps({1: 1, 2: 2 ** 40, 3: cbor2.dumps({2: [[b"M", cbor2.dumps(1), cbor2.dumps("x" * 300)]]}), 23: [-16, bytes(32)]}),
+                                              23: cbor2.dumps({"en": {1: "d" * 70000}})}))]
+    inputs += envs
+    for env in envs:
+        for _ in range(40 if not ck.deep else 400):
+            pos, h = rng.randrange(len(env) + 1), rng.choice(heads)
+            x = env[:pos] + h + env[pos:]
+            inputs.append(x)
+            if rng.random() < 0.3:
+                inputs.append(x[:rng.randrange(len(x) + 1)])
+            if rng.random() < 0.3 and len(env) > 2:
+                q = rng.randrange(len(env))
+                inputs.append(env[:q] + bytes([rng.choice([0x5F, 0x7F, 0x9F, 0xBF, 0xFF, 0xD8, 0x1C, 0x1D, 0x19, env[q] ^ 0x20, env[q] ^ 0x1F])]) + env[q + 1:])
+    tokens = [b"\xd8\x1c", b"\xd8\x1d", b"\xd8\x19", b"\xd9\x01\x00", b"\x81", b"\x82", b"\xa1", b"\x9f", b"\xbf", b"\x5f", b"\x7f", b"\xff", b"\x00", b"\x41\x00", b"\x40", b"\x60",
+              b"\x18", b"\xd8", b"\x1c", b"\xc1", b"\xf6", b"\xf9\x00\x00", b"\x42\xd8\x1c", b"\x80", b"\xa0", b"\x98\x02", b"\xb8\x01", b"\xd9\x00\x1d"]
+    for _ in range(300 if not ck.deep else 5000):
+        inputs.append(b"".join(rng.choice(tokens) if rng.random() < 0.85 else bytes([rng.randrange(256)]) for _ in range(rng.randrange(1, 14))))
+    inputs = list(dict.fromkeys(inputs))
+    mres = ck.model([["scan_tags", x] for x in inputs])
+    for x, mr in zip(inputs, mres):
+        ir = core.Check.impl(impl_scan, x)
+        ck.count("scan", x, nontrivial=len(x) > 1, sample={"bytes": x.hex()[:60], "len": len(x), "verdict": ir[1] if ir[0] == "ok" else "raised " + str(ir[1])})
+        ck.cov.setdefault("scan_verdicts", {"accepted": 0, "refused": 0})
+        if ir[0] == "ok":
+            ck.cov["scan_verdicts"]["accepted" if ir[1] else "refused"] += 1
+        if ir[0] != "ok":
+            fails.append({"input": {"scan": x.hex()}, "observed": f"{ir[1]} escaped from SuitObject.reject_sharing_tags", "expected": "returns, or ValueError"})
+        elif (mr[0], mr[1]) != ("ok", ir[1]) and not any(b[1] == "TagScan.scan_tags" for b in ck.broken):
+            ck.broken.append(("corr", "TagScan.scan_tags", f"input {x.hex()[:200]}: model {mr} implementation {'accepts' if ir[1] else 'refuses'}"))
+    return fails[:3]
+
+
 def nested_try_each(depth):
     seq = cbor2.dumps([12, 0])
     for _ in range(depth):
@@ -520,6 +587,18 @@ def nested_try_each(depth):
 
 def nesting_stream(ck):
     fails = []
+    # at the depths where the stack runs out the C encoder of cbor2 reports RecursionErrors it cannot propagate ("Exception ignored in")
+    # through sys.unraisablehook: counted, not printed
+    unraisable = []
+    sys.unraisablehook = lambda u: unraisable.append(type(u.exc_value).__name__)
+    try:
+        return _nesting_stream(ck, fails)
+    finally:
+        sys.unraisablehook = sys.__unraisablehook__
+        ck.cov["unraisable_in_encoder"] = len(unraisable)
+
+
+def _nesting_stream(ck, fails):
     for depth in ([1, 5, 20, 60] if not ck.deep else [1, 5, 20, 60, 100, 140]):
         observe(ck, "nesting", nested_run_sequences(depth), fails, None, origin=f"run-sequence nested {depth} deep")
         observe(ck, "nesting", nested_try_each(depth), fails, None, origin=f"try-each nested {depth} deep")
@@ -638,6 +717,11 @@ def replay(path):
             shutil.rmtree(tmp, ignore_errors=True)
         print("REPRODUCED: " + fs[0]["observed"] if fs else "not reproduced on the current tree")
         return 1 if fs else 0
+    if "scan" in inp:
+        r = core.Check.impl(impl_scan, bytes.fromhex(inp["scan"]))
+        print("reject_sharing_tags:", r)
+        print("REPRODUCED" if r[0] != "ok" else "not reproduced on the current tree")
+        return 1 if r[0] != "ok" else 0
     if "wide" in inp:
         class _CK:
             deep = inp["members"] > 16000
